@@ -46,3 +46,18 @@ def unparsed_reads(fr, read_bb, parser_bbs, starts):
             ok, gates = establishes_empty(fr, p, rem)
             out.append((kind, p, ok, gates))
     return out
+
+
+def built_verdicts(prog, parser_fn):
+    """[(function, body, bb, idx, variant)] for every `nom::Err` value the framing parsers construct themselves
+    (everything reachable from the reader's parser call).  The reader takes Error/Incomplete as `read more`, so a
+    verdict about a complete but malformed message must be `Failure`."""
+    out = []
+    for fn_ in sorted(prog.reachable_fns([parser_fn])):
+        b = prog.bodies.get(fn_)
+        if b is None or b.kind not in ("fn", "closure"):
+            continue
+        for bb, i, s_ in b.stmts():
+            if s_["k"] == "assign" and s_["rv"]["k"] == "agg" and s_["rv"].get("ak") == "adt" and s_["rv"]["adt"] == "nom::Err":
+                out.append((fn_, b, bb, i, s_["rv"]["vname"]))
+    return out
